@@ -196,6 +196,20 @@ func runPath(w *World, s *Solver, cfg *RunConfig, fn *ssa.Function, prefix []Dec
 	}
 	// implicit obligations
 	if m.res.Violation == nil {
+		func() {
+			defer func() {
+				if r := recover(); r != nil {
+					if pe, ok := r.(pathEnd); ok {
+						m.res.Status, m.res.Msg = pe.kind, pe.msg
+						return
+					}
+					panic(r)
+				}
+			}()
+			m.implicitObligations()
+		}()
+	}
+	if false {
 		switch m.res.Status {
 		case "panic":
 			if m.cfg.PanicIsViolation {
